@@ -688,10 +688,14 @@ class SyncObj(object):
                     subscribers = self.__commandsWaitingCommit.pop(entry[1], [])
                     res = self.__doApplyCommand(entry[0])
                     for subscribeTermID, callback in subscribers:
-                        if subscribeTermID == currentTermID:
-                            callback(res, FAIL_REASON.SUCCESS)
-                        else:
-                            callback(None, FAIL_REASON.DISCARDED)
+                        # The command has been executed: a failing callback must not make it run again.
+                        try:
+                            if subscribeTermID == currentTermID:
+                                callback(res, FAIL_REASON.SUCCESS)
+                            else:
+                                callback(None, FAIL_REASON.DISCARDED)
+                        except Exception:
+                            logger.exception('failed to execute callback')
 
                     self.__raftLastApplied += 1
                 except SyncObjExceptionWrongVer as e:
@@ -1524,7 +1528,10 @@ class SyncObj(object):
             # not known to this node: report the outcome as open instead of staying silent forever.
             for idx in sorted(idx for idx in self.__commandsWaitingCommit if idx <= self.__raftLastApplied):
                 for _, callback in self.__commandsWaitingCommit.pop(idx):
-                    callback(None, FAIL_REASON.LEADER_CHANGED)
+                    try:
+                        callback(None, FAIL_REASON.LEADER_CHANGED)
+                    except Exception:
+                        logger.exception('failed to execute callback')
 
             if self.__conf.dynamicMembershipChange:
                 self.__updateClusterConfiguration([node for node in data[3] if node != self.__selfNode])
